@@ -80,6 +80,18 @@ add("C17", "model_checking",
     "Trusted: the Go race detector and memory model; sequential behaviour of the components (tied to their models by C09/C16/C20). RWMutex writer preference not modelled (superset of real schedules). Unsynchronised code has no scheduling points inside: its races are found by the race pass.",
     "stateless model checking of the implementation under a controlled scheduler (iterative preemption bounding) + happens-before race detection per explored schedule", "DESIGN.md 3/C17")
 
+ssznote = ("Trusted: internal/refssz (independent reflection-driven SSZ codec, strict decoder, merkleizer) and the refspec structs = the specification's schema "
+           "(written from the specification, not derived from zrnt's field lists). Values up to the stated deviation bound per type; presets T4, odd (non-power-of-two) limits, minimal, mainnet.")
+add("C04", "exploration",
+    "Registry of 148 exported SSZ types (8 helper types listed as not covered) x 4 presets: the zero value, every single deviation (each leaf: 1 / max / position-unique pattern; each list length 1, 2, limit; each bitlist length 1,7,8,9,limit with all-0/all-1 bits), every pair of deviations for small types, three all-leaves-distinct values; bytes from the reference codec -> zrnt decodes, re-encodes identically, ByteLength = bytes written, FixedLength agrees with fixed/variable size, JSON and YAML round trips; malformed inputs (every proper prefix, offset fields rewritten to 0/-1/+1/len/len+1/max, limit+1 elements) must be refused wherever the strict reference decoder refuses them. Two recorded known findings (both in the ztyp dependency).",
+    ssznote + " Only the three malformation classes named in the statement are demanded (trailing bytes are not).", "bounded exhaustive enumeration of values/encodings per type against a reference codec", "DESIGN.md 3/C04")
+add("C05", "exploration",
+    "(a) for every value of the C04 enumeration: struct HashTreeRoot = root of the tree view built from the bytes = SSZ merkleization of the specification schema (and the view re-serialises to the same bytes). (b) on the tree-backed state of each of the 6 forks: every sequence of <= 2 (quick) / 3 (thorough) mutations out of ~60 (setters, sub-view element writes, appends, resets, whole-subtree replacements, AddValidator) x every pattern of intermediate HashTreeRoot queries x root cached or not before the first mutation: cached root = root of the same content rebuilt from bytes = SSZ root. (c) every state reached by the C01/C02 explorations passes the same root comparison (chainh.Diff).",
+    ssznote, "bounded exhaustive enumeration of values and of mutation sequences on the implementation against a reference merkleizer", "DESIGN.md 3/C05")
+add("C15", "model_checking",
+    "(a) accessor table (~65 setters / element writes / appends per fork) x 6 fork state types x 3 presets on the all-leaves-distinct state: after each call the state's bytes equal the model edited BY FIELD NAME (exactly the named field changed, nothing else) and every getter / typed sub-view read returns the model's value; getters after loading bytes likewise. (b) copy independence: state0, state1 = Copy(state0), state2 = Copy(state1); every sequence (depth bound 2 quick / 3 thorough) of mutations on any live state; after EVERY step every live state must equal its never-shared twin. Copies with cloned contexts advanced by real transitions are exercised by every branch of the C01/C08 explorations (chainh.Node.Branch).",
+    ssznote, "explicit enumeration of operation sequences on the implementation, lock-step with a reference model (twin states)", "DESIGN.md 3/C15")
+
 claimed = {c["property_id"] for c in checks}
 na = [{"property_id": "C%02d" % i, "reason": "check not built yet (work in progress; same technique planned, see DESIGN.md section 3)"}
       for i in range(1, 21) if "C%02d" % i not in claimed]
@@ -96,7 +108,7 @@ m = {"version": 1,
           "kind_free_text": "deviation-bounded exhaustive explorer over beacon-chain histories; real zrnt transition vs reference specification model on every step"},
          {"name": "schedx", "path": "internal/schedx, internal/concx, tools/shim", "serves_properties": ["C17"],
           "kind_free_text": "controlled scheduler + DFS over thread interleavings with preemption bounding; linearizability by brute force; -race pass with HB-free hand-off"},
-         {"name": "enumx", "path": "internal/numx, internal/shufx", "serves_properties": ["C06", "C19"],
+         {"name": "enumx", "path": "internal/numx, internal/shufx, internal/sszx, internal/statex, internal/forkx", "serves_properties": ["C04", "C05", "C06", "C13", "C14", "C15", "C19"],
           "kind_free_text": "bounded exhaustive enumeration of input shapes/values against reference implementations"}],
      "checks": checks,
      "not_applicable": na,
